@@ -654,7 +654,8 @@ func (h *Sources) getLine(line *core.Line, cur *core.Cursor) (*core.Line, *core.
 			return line, cur
 		}
 
-		lh := hist[0]
+		// The line being typed is kept at index -1.
+		lh := hist[-1]
 		if lh == nil || len(lh.items) == 0 {
 			return line, cur
 		}
